@@ -62,6 +62,7 @@ const KINDS: [ItemKind; 3] = [ItemKind::Interface, ItemKind::Parcelable, ItemKin
 /// (0 first, 1 middle, 2 last), followed by the normal terminator.
 fn make_case(ki: usize, position: usize, rot: usize, bad: &[Tok], label: String) -> Option<Case> {
     let kind = KINDS[ki];
+    let (rot, lay) = (rot % 5, rot / 5);
     // is the string (with its terminator) itself a well-formed member? then it is not in the space
     let mut with_term: Vec<Kind> = bad.iter().map(|t| t.kind).collect();
     with_term.push(if kind == ItemKind::Enum { Kind::Comma } else { Kind::Semi });
@@ -119,7 +120,20 @@ fn make_case(ki: usize, position: usize, rot: usize, bad: &[Tok], label: String)
     });
     let bad_last = all.len() - 1;
     all.extend(toks[at..].iter().cloned());
-    let r = layout_default(&all);
+    let r = match lay {
+        0 => layout_default(&all),
+        // one statement per line, LF or CRLF
+        _ => {
+            let eol = if lay == 1 { "\n  " } else { "\r\n\t" };
+            crate::model::doc::layout(&all, &|i| {
+                if i > 0 && i < all.len() && matches!(all[i - 1].kind, Kind::Semi | Kind::LBrace | Kind::RBrace | Kind::Comma) {
+                    Some(eol.to_string())
+                } else {
+                    None
+                }
+            })
+        }
+    };
     let siblings: Vec<String> = if kind == ItemKind::Enum {
         doc.item.elems.iter().map(proj_enum_elem).collect()
     } else {
@@ -359,7 +373,7 @@ pub fn run(tier: Tier, seed: u64) -> i32 {
                     KINDS[ki],
                     bad.iter().map(|t| t.text.as_str()).collect::<Vec<_>>().join(" ")
                 );
-                let c = make_case(ki, pos, i % 5, &bad, label)?;
+                let c = make_case(ki, pos, i % 15, &bad, label)?;
                 stats.nontrivial(fnv(&c.files[0].1));
                 if i % 9001 == 0 {
                     stats.sample(json!({"label": c.label, "text": c.files[0].1}));
@@ -445,7 +459,7 @@ pub fn run(tier: Tier, seed: u64) -> i32 {
         1,
         |i| {
             let (ki, pos, bad, label) = &fused[i];
-            let c = make_case(*ki, *pos, i % 5, bad, label.clone())?;
+            let c = make_case(*ki, *pos, i % 15, bad, label.clone())?;
             stats.nontrivial(fnv(&c.files[0].1));
             Some(c)
         },
